@@ -201,6 +201,14 @@ Variable basis : nat -> nat -> fdata. (* basis i p : data of the field with loca
 Definition integrate_e (f : form) (i j : nat) : R :=
   sumn nP (fun p => w p * dform f p (basis i p) (basis j p)).
 
+(* homogeneity under a change of units: scaling every weight (lengths^dim, a thickness, a
+   coefficient common to the form) scales every entry by the same factor -- no absolute scale *)
+Theorem integrate_e_homogeneous : forall (c : R) f i j,
+  sumn nP (fun p => (c * w p) * dform f p (basis i p) (basis j p)) = c * integrate_e f i j.
+Proof.
+  intros. unfold integrate_e. rewrite <- sumn_scal. apply sumn_ext; intros p _. ring.
+Qed.
+
 (* the finite element function with local coefficients x *)
 Fixpoint fsum (m : nat) (x : nat -> R) (p : nat) : fdata :=
   match m with O => fzero | S k => fadd (fsum k x p) (fscal (x k) (basis k p)) end.
